@@ -4,7 +4,7 @@
    id lists are comma separated, state sets are separated by semicolons; the table lists the
    verdicts of the real auth rules for (event, provider contents) pairs, one per line:
    event id, a bar, the sorted provider ids, a bar, 1 or 0. *)
-From Verif Require Import Lib.Bytes StateRes.Event StateRes.Kahn StateRes.V2 StateRes.V1 StateRes.Entry StateRes.V2Spec StateRes.V1Spec StateRes.Wf.
+From Verif Require Import Lib.Bytes StateRes.Event StateRes.Kahn StateRes.V2 StateRes.V1 StateRes.Entry StateRes.V2Spec StateRes.V2SpecResolve StateRes.V1Spec StateRes.Wf.
 From Verif Require Import Json.Ast Json.Parse Auth.Types Auth.Versions Auth.Abs Auth.Decide Auth.Model.
 Open Scope N_scope.
 
@@ -142,7 +142,7 @@ Definition run_power_order (args : list bytes) : bytes :=
       let un := decode_universe u in
       out_ordered (power_order idP (priv_of_version ver) GenConsts.gen_creator_power_level users_default0
                                (dedup_events (lookup_ids un (parse_ids auth)))
-                               (find_event create un) (lookup_ids un (parse_ids l)))
+                               (find_event create un) (dedup_events (lookup_ids un (parse_ids l))))
   | _ => bs "badargs"
   end.
 
@@ -193,13 +193,14 @@ Definition run_stages (args : list bytes) : bytes :=
       let cu := split_conflicted idG false ss in
       let v21 := is_v21 ver in
       let full := fst cu ++ auth_difference_new idE v21 authmap (fst cu) ss in
-      let control := control_events (dedup_events (fst cu)) (snd cu) full in
-      let others := other_events (snd cu) full control in
+      let skip := if v21 then [] else snd cu in
+      let control := control_events (dedup_events (fst cu)) skip full in
+      let others := other_events skip full control in
       let priv := priv_of_version ver in
-      let unc := if v21 then snd cu else power_order idP priv GenConsts.gen_creator_power_level users_default0 authmap None (snd cu) in
+      let unc := if v21 then snd cu else power_order idP priv GenConsts.gen_creator_power_level users_default0 authmap None (dedup_events (snd cu)) in
       let r0 := if v21 then mkR [] [] else r_apply (mkR [] []) unc in
       let create := smap_get (r_state r0) (t_create, []) in
-      let csorted := power_order idP priv GenConsts.gen_creator_power_level users_default0 authmap create control in
+      let csorted := power_order idP priv GenConsts.gen_creator_power_level users_default0 authmap create (dedup_events control) in
       let r1 := auth_and_apply (allowed_of_table t) (fun k => mem_bytes k rejl) authmap r0 csorted in
       out_ordered control ++ [c_semi] ++ out_ordered others ++ [c_semi]
       ++ match smap_get (r_state r1) (t_power, []) with Some p => e_id p | None => [] end
@@ -233,9 +234,7 @@ Definition prop_split (args : list bytes) : bytes :=
   | [ver; u; sets; _; obs] =>
       let un := decode_universe u in
       let ss := parse_sets un sets in
-      if negb (sets_are_lists_without_repeats ss) then bs "ok"
-      else
-        let cu := spec_split (is_v1 ver) ss in
+      let cu := spec_split (is_v1 ver) ss in
         let want := out_sorted (fst cu) ++ [c_semi] ++ out_sorted (snd cu) in
         if bytes_eqb want obs then bs "ok" else bs "FAIL spec says " ++ want
   | _ => bs "badargs"
@@ -247,9 +246,7 @@ Definition prop_authdiff (args : list bytes) : bytes :=
   | [ver; u; sets; auth; _; obs] =>
       let un := decode_universe u in
       let ss := parse_sets un sets in
-      if negb (sets_are_lists_without_repeats ss) then bs "ok"
-      else
-        let authmap := dedup_events (lookup_ids un (parse_ids auth)) in
+      let authmap := dedup_events (lookup_ids un (parse_ids auth)) in
         let d := spec_auth_difference_list authmap ss in
         let all := if is_v21 ver
                    then union_events d (spec_conflicted_subgraph_list authmap (fst (spec_split false ss)) ss)
@@ -267,9 +264,7 @@ Definition prop_power_order (args : list bytes) : bytes :=
   match args with
   | [ver; u; l; auth; create; _; obs] =>
       let un := decode_universe u in
-      let input := lookup_ids un (parse_ids l) in
-      if negb (nodup_bytes (ids_of input)) then bs "ok"
-      else
+      let input := dedup_events (lookup_ids un (parse_ids l)) in
         let authmap := dedup_events (lookup_ids un (parse_ids auth)) in
         let items := map (fun e => (e, spec_sender_power (priv_of_version ver) GenConsts.gen_creator_power_level
                                                          users_default0 authmap (find_event create un) e)) input in
@@ -304,12 +299,9 @@ Definition prop_mainline_order (args : list bytes) : bytes :=
    event JSONs; observable] *)
 Definition prop_v1_on (ver : bytes) (un : list event) (ss : list (list event)) (auth tbl obs : bytes) : bytes :=
   if negb (is_v1 ver) then bs "ok"
-  else if negb (sets_are_lists_without_repeats ss) then bs "ok"
   else
     let cu := spec_split true ss in
     let authl := lookup_ids un (parse_ids auth) in
-    if negb (auth_events_unconflicted (fst cu) authl) then bs "ok"
-    else
       let t := parse_table tbl in
       let want := out_sorted (spec_resolve_v1 (allowed_of_table t) (fst cu) authl ++ snd cu) in
       if bytes_eqb want obs then bs "ok" else bs "FAIL 6.2-r7 state is " ++ want.
@@ -413,7 +405,6 @@ Definition prop_unconflicted_kept (args : list bytes) : bytes :=
       let un := decode_universe u in
       let ss := parse_sets un sets in
       if is_v1 ver then bs "ok"
-      else if negb (sets_are_lists_without_repeats ss) then bs "ok"
       else
         let unc := snd (spec_split false ss) in
         let got := parse_ids obs in
@@ -421,6 +412,63 @@ Definition prop_unconflicted_kept (args : list bytes) : bytes :=
         | [] => bs "ok"
         | l => bs "FAIL unconflicted events missing from the result: " ++ out_sorted l
         end
+  | _ => bs "badargs"
+  end.
+
+
+(* ---------- the whole of v2 / v2.1 from the specification-side definitions ----------
+   [ver; universe; sets; auth; rejected; table; event JSONs; observable] *)
+Definition prop_v2 (args : list bytes) : bytes :=
+  match args with
+  | [ver; u; sets; auth; rej; tbl; _; obs] =>
+      if is_v1 ver then bs "ok"
+      else if negb (bytes_eqb (prop_unconflicted_kept args) (bs "ok")) then prop_unconflicted_kept args
+      else
+        let un := decode_universe u in
+        let ss := parse_sets un sets in
+        let authl := lookup_ids un (parse_ids auth) in
+        if negb (spec_resolve_applies ss authl) then bs "ok"
+        else match ss, authl with
+             | [], _ => bs "ok"
+             | _, _ =>
+                 let t := parse_table tbl in
+                 let rejl := parse_ids rej in
+                 let want := out_sorted (spec_resolve_v2 (allowed_of_table t) (fun k => mem_bytes k rejl)
+                                                         (priv_of_version ver) GenConsts.gen_creator_power_level users_default0
+                                                         (is_v21 ver) ss authl) in
+                 if bytes_eqb want obs then bs "ok" else bs "FAIL the specification resolves to " ++ want
+             end
+  | _ => bs "badargs"
+  end.
+
+(* ---------- ResolveStateConflictsV2 called directly (deprecated driver) ----------
+   [ver; universe; conflicted; unconflicted; auth; rejected; table; event JSONs] *)
+Definition run_resolve_v2_direct (args : list bytes) : bytes :=
+  match args with
+  | [ver; u; cf; uc; auth; rej; tbl; _] =>
+      let un := decode_universe u in
+      let t := parse_table tbl in
+      let rejl := parse_ids rej in
+      let r := resolve_v2_old (allowed_of_table t) (fun k => mem_bytes k rejl) idE idP (priv_of_version ver)
+                              GenConsts.gen_creator_power_level users_default0
+                              (lookup_ids un (parse_ids cf)) (lookup_ids un (parse_ids uc)) (lookup_ids un (parse_ids auth)) in
+      answer t (Some (result_events r, r_log r))
+  | _ => bs "badargs"
+  end.
+
+(* every event handed over as unconflicted (one per key) is in the result *)
+Definition prop_direct_kept (args : list bytes) : bytes :=
+  match args with
+  | [_; u; _; uc; auth; _; _; _; obs] =>
+      let un := decode_universe u in
+      let unc := lookup_ids un (parse_ids uc) in
+      let authl := lookup_ids un (parse_ids auth) in
+      let got := parse_ids obs in
+      if negb (existsb is_create (authl ++ unc)) then bs "ok"
+      else match filter (fun e => negb (mem_bytes (e_id e) got)) (state_events unc) with
+           | [] => bs "ok"
+           | l => bs "FAIL unconflicted events missing from the result: " ++ out_sorted l
+           end
   | _ => bs "badargs"
   end.
 
@@ -442,6 +490,9 @@ Definition ops_C10 : list (bytes * (list bytes -> bytes)) :=
     (bs "C10.prop.v1", prop_v1);
     (bs "C10.prop.v1_old", prop_v1_old);
     (bs "C10.prop.unconflicted_kept", prop_unconflicted_kept);
+    (bs "C10.prop.v2", prop_v2);
+    (bs "C10.resolve_v2_direct", run_resolve_v2_direct);
+    (bs "C10.prop.direct_kept", prop_direct_kept);
     (bs "C10.resolve_new_e2e", run_resolve_new_e2e);
     (bs "C10.resolve_old_e2e", run_resolve_old_e2e);
     (bs "C10.allowed_rows", run_allowed_rows) ].
